@@ -8,7 +8,16 @@
      written as a plain sum; `address + amount` with caller-supplied amount is the
      checked addition of the repaired code (fix 2a0d67f);
    - slice indexing that would panic in Rust is [Panic PIndex], so "never panics" is a
-     theorem about the guards and not true by construction. *)
+     theorem about the guards and not true by construction;
+   - pointer TARGETS are caller-supplied usize values that nothing validates (write_pointer), so
+     `destination + count` in allocate is NOT a plain sum: [allocate] carries the representability
+     check of the repaired code (fix 0edd128: new size <= isize::MAX, every target that moves stays
+     below 2^64, else Err EOob before anything is changed), and [allocate_m] is the same function
+     in machine arithmetic ([add_w 64], Checked/Wrapping) in the statement order of the code
+     (checks, splice of the data, relocation of the maps) returning the archive the caller is left
+     with; Proofs/BinRelocate.v proves the two equal (no panic, no wrapped target, and a rejected
+     request leaves the archive as it was).  Annotation KEYS (cells, label addresses) are
+     validated against the size when written and stay <= size, so key + count <= new size. *)
 From Coq Require Import List NArith ZArith Bool.
 From Mila Require Import Lib.Bytes Lib.Machine.
 Import ListNotations.
@@ -210,8 +219,10 @@ Definition write_label (a : archive) (address : N) (l : bytes) : outcome archive
 Definition adjust_pointer (pointer address count : N) (subtract : bool) : N :=
   if address <=? pointer then (if subtract then pointer - count else pointer + count) else pointer.
 (* the comparison used for labels and pointer destinations *)
+(* `pointer > address || (pointer >= address && ge)` *)
+Definition moves (pointer address : N) (ge : bool) : bool := orb (address <? pointer) (andb (address <=? pointer) ge).
 Definition adjust_dest (pointer address count : N) (subtract ge : bool) : N :=
-  if orb (address <? pointer) (andb (address <=? pointer) ge)
+  if moves pointer address ge
   then (if subtract then pointer - count else pointer + count) else pointer.
 Definition in_range (address count x : N) : bool := andb (address <=? x) (x <? address + count).
 
@@ -234,10 +245,24 @@ Definition filter_cstrs (p : N -> bool) (c : list (bytes * list N)) : list (byte
 Definition allocate_at_end (a : archive) (amount : N) : archive :=
   set_data a (a_data a ++ zeros (N.to_nat amount)).
 
-Definition allocate (a : archive) (address amount : N) (ge : bool) : outcome archive :=
+Definition ISIZE_MAX : N := 2 ^ 63 - 1.
+(* the representability check of allocate (fix 0edd128), evaluated before anything is changed:
+     self.size().checked_add(amount).map_or(false, |new_size| new_size <= isize::MAX as usize)
+     && self.pointers.values().all(|d| !(moves d) || d.checked_add(amount).is_some()) *)
+Definition allocate_fits (a : archive) (address amount : N) (ge : bool) : bool :=
+  andb (match checked_add64 (size a) amount with Some new_size => new_size <=? ISIZE_MAX | None => false end)
+       (forallb (fun p => orb (negb (moves (snd p) address ge))
+                              (match checked_add64 (snd p) amount with Some _ => true | None => false end))
+                (a_ptrs a)).
+
+Definition allocate_checks (a : archive) (address amount : N) (ge : bool) : outcome unit :=
   _ <- validate_address address (size a) true ;;
   _ <- validate_alignment address 4 ;;
   _ <- validate_alignment amount 4 ;;
+  guard (allocate_fits a address amount ge) EOob.
+
+Definition allocate (a : archive) (address amount : N) (ge : bool) : outcome archive :=
+  _ <- allocate_checks a address amount ge ;;
   let d := firstn (N.to_nat address) (a_data a) ++ zeros (N.to_nat amount) ++ skipn (N.to_nat address) (a_data a) in
   Ok {| a_data := d;
         a_text := adjust_text (a_text a) address amount false;
@@ -245,6 +270,38 @@ Definition allocate (a : archive) (address amount : N) (ge : bool) : outcome arc
         a_labels := adjust_labels (a_labels a) address amount false ge;
         a_cstrs := adjust_cstrs (a_cstrs a) address amount false;
         a_endian := a_endian a |}.
+
+(* The same operation as the code executes it: usize additions on pointer targets are [add_w 64]
+   (Checked: overflow panics; Wrapping: wraps), the data is spliced BEFORE the maps are relocated, and
+   the result is the outcome together with the archive `&mut self` is left with - after a panic in
+   adjust_pointers that would be the half-relocated archive [a1].  (Not extracted; equal to
+   [allocate] for both modes: BinRelocate.allocate_m_is_allocate.) *)
+Fixpoint adjust_pointers_add (m : mode) (ptrs : amap N) (address count : N) (ge : bool) : outcome (amap N) :=
+  match ptrs with
+  | [] => Ok []
+  | (source, destination) :: r =>
+    d' <- (if moves destination address ge then add_w 64 m destination count else Ok destination) ;;
+    r' <- adjust_pointers_add m r address count ge ;;
+    Ok ((adjust_pointer source address count false, d') :: r')
+  end.
+(* the part of the code after the checks *)
+Definition allocate_apply (m : mode) (a : archive) (address amount : N) (ge : bool) : outcome unit * archive :=
+  let a1 := set_data a (firstn (N.to_nat address) (a_data a) ++ zeros (N.to_nat amount) ++ skipn (N.to_nat address) (a_data a)) in
+  let new_text := adjust_text (a_text a) address amount false in
+  let new_labels := adjust_labels (a_labels a) address amount false ge in
+  match adjust_pointers_add m (a_ptrs a) address amount ge with
+  | Err e => (Err e, a1)
+  | Panic k => (Panic k, a1)
+  | Ok new_pointers =>
+    (Ok tt, {| a_data := a_data a1; a_text := new_text; a_ptrs := new_pointers; a_labels := new_labels;
+               a_cstrs := adjust_cstrs (a_cstrs a) address amount false; a_endian := a_endian a |})
+  end.
+Definition allocate_m (m : mode) (a : archive) (address amount : N) (ge : bool) : outcome unit * archive :=
+  match allocate_checks a address amount ge with
+  | Err e => (Err e, a)
+  | Panic k => (Panic k, a)
+  | Ok _ => allocate_apply m a address amount ge
+  end.
 
 Definition deallocate (a : archive) (address amount : N) (ge : bool) : outcome archive :=
   _ <- validate_address address (size a) false ;;
